@@ -165,6 +165,15 @@ func init() {
 			for i := 0; i < nrace; i++ {
 				jobs = append(jobs, Job{Variant: "race", Mode: "db.c02sched", Args: js(map[string]interface{}{"Cases": sched / 2, "Cfg": StoreCfg{NumBucket: 1, TreeHeight: 3, BodyMax: 1 << 20, IndexInterval: 512}})})
 			}
+			// the server's own graceful shutdown over loopback TCP (Main's sequence: signal -> Server.Shutdown -> Serve returns -> HStore.Close)
+			nserve, cserve := 3, 8
+			if tier == "thorough" {
+				nserve, cserve = 12, 40
+			}
+			for i := 0; i < nserve; i++ {
+				jobs = append(jobs, Job{Variant: "plain", Mode: "db.c02serve", Args: js(map[string]interface{}{"Cases": cserve})})
+			}
+			jobs = append(jobs, Job{Variant: "race", Mode: "db.c02serve", Args: js(map[string]interface{}{"Cases": cserve / 2})})
 			return jobs
 		},
 	})
